@@ -16,6 +16,7 @@ import (
 	"os"
 	"sort"
 	"strconv"
+	"strings"
 )
 
 // Ctx is handed to every stream.
@@ -29,9 +30,15 @@ type Ctx struct {
 	Stats map[string]int
 	Fails []string // monitor failures (model-free property oracles)
 	lines int
+	// emitOnly: when set, only the lines whose format starts with it (and the '#' lines) are printed - a stream that runs the
+	// histories of another stream under its own monitors prints its own lines only
+	emitOnly string
 }
 
 func (c *Ctx) Emit(format string, a ...interface{}) {
+	if c.emitOnly != "" && !strings.HasPrefix(format, c.emitOnly) && !strings.HasPrefix(format, "#") {
+		return
+	}
 	fmt.Fprintf(c.w, format, a...)
 	c.w.WriteByte('\n')
 	c.lines++
